@@ -77,7 +77,7 @@ with den_elems (fuel : nat) (i : N) (rest : list N) (acc : list doc) {struct fue
   match fuel with
   | O => None
   | S f =>
-    match skip_nops (S (length rest)) i rest with
+    match skip_nops f i rest with
     | None => None
     | Some (i', rest') =>
       match rest' with
@@ -95,7 +95,7 @@ with den_members (fuel : nat) (i : N) (rest : list N) (acc : list (bytes * doc))
   match fuel with
   | O => None
   | S f =>
-    match skip_nops (S (length rest)) i rest with
+    match skip_nops f i rest with
     | None => None
     | Some (i', rest') =>
       match rest' with
@@ -107,7 +107,7 @@ with den_members (fuel : nat) (i : N) (rest : list N) (acc : list (bytes * doc))
           | len :: r1 =>
             match string_at msg strings (word_val w) len with
             | Some k =>
-              match skip_nops (S (length r1)) (i' + 2) r1 with
+              match skip_nops f (i' + 2) r1 with
               | Some (i2, r2) =>
                 match den_value f i2 r2 with
                 | Some (d, j, r') => den_members f j r' ((k, d) :: acc)
@@ -129,18 +129,18 @@ Fixpoint den_roots (fuel : nat) (i : N) (rest : list N) (acc : list doc) : optio
   match fuel with
   | O => None
   | S f =>
-    match skip_nops (S (length rest)) i rest with
+    match skip_nops f i rest with
     | None => None
     | Some (i', rest') =>
       match rest' with
       | [] => Some (rev acc)
       | w :: r =>
         if word_tag w =? TagRoot then
-          match skip_nops (S (length r)) (i' + 1) r with
+          match skip_nops f (i' + 1) r with
           | Some (i1, r1) =>
-            match den_value (S (length r1)) i1 r1 with
+            match den_value f i1 r1 with
             | Some (d, j, r2) =>
-              match skip_nops (S (length r2)) j r2 with
+              match skip_nops f j r2 with
               | Some (j', c :: r3) =>
                 if (word_tag c =? TagRoot) && (word_val c =? i') && (word_val w =? j' + 1)
                 then den_roots f (j' + 1) r3 (d :: acc) else None
